@@ -330,7 +330,30 @@ def spec_summary(env, s: SpecFn):
     return out
 
 
+_unfold_memo = {}  # id of a spec application -> (the application, its defining-equation instances, the applications in them)
+_apps_memo = {}  # id of a top-level term -> (the term, kept alive so that the id stays its own; its spec applications)
+
+
 def find_spec_apps(env, terms):
+    """spec-function applications in `terms` (memoised per top-level term: path conditions share most of theirs)"""
+    out = []
+    got = set()
+    nspecs = len(env.spec_decls)
+    for t in terms:
+        k = (t.get_id(), nspecs)
+        hit = _apps_memo.get(k)
+        if hit is None:
+            hit = (t, _find_spec_apps(env, [t]))
+            _apps_memo[k] = hit
+        for a in hit[1]:
+            i = a.get_id()
+            if i not in got:
+                got.add(i)
+                out.append(a)
+    return out
+
+
+def _find_spec_apps(env, terms):
     seen = set()
     apps = []
     todo = list(terms)
@@ -371,29 +394,66 @@ def spec_instances(env, terms, extra_fuel=0):
                 continue
             first_time = key not in best
             best[key] = remaining
-            summ = spec_summary(env, s)
-            actual = [app.arg(i) for i in range(app.num_args())]
-            sub = list(zip(s.param_consts, actual))
             used2 = dict(used)
             used2[s.name] = used2.get(s.name, 0) + 1
-            new_terms = []
-            for pc, res in summ:
-                body = app == z3.substitute(res, *sub)
-                if pc:
-                    cond = z3.substitute(z3.And(*pc) if len(pc) > 1 else pc[0], *sub)
-                    body = z3.Implies(cond, body)
-                if first_time:
-                    insts.append(body)
-                new_terms.append(body)
-            for a in find_spec_apps(env, new_terms):
+            hit = _unfold_memo.get(key)
+            if hit is None:
+                summ = spec_summary(env, s)
+                actual = [app.arg(i) for i in range(app.num_args())]
+                sub = list(zip(s.param_consts, actual))
+                new_terms = []
+                for pc, res in summ:
+                    body = app == z3.substitute(res, *sub)
+                    if pc:
+                        cond = z3.substitute(z3.And(*pc) if len(pc) > 1 else pc[0], *sub)
+                        body = z3.Implies(cond, body)
+                    new_terms.append(body)
+                hit = (app, new_terms, find_spec_apps(env, new_terms))  # (app kept alive: its id stays its own)
+                _unfold_memo[key] = hit
+            if first_time:
+                insts.extend(hit[1])
+            for a in hit[2]:
                 nxt.append((a, used2))
         frontier = nxt
     return insts
 
 
+_consts_memo = {}
+
+
+def _consts(t):
+    """names of the uninterpreted constants of a term"""
+    k = t.get_id()
+    r = _consts_memo.get(k)
+    if r is not None:
+        return r
+    out = set()
+    seen = set()
+    todo = [t]
+    while todo:
+        x = todo.pop()
+        i = x.get_id()
+        if i in seen:
+            continue
+        seen.add(i)
+        if z3.is_app(x):
+            if x.num_args() == 0 and x.decl().kind() == z3.Z3_OP_UNINTERPRETED:
+                out.add(x.decl().name())
+            todo.extend(x.children())
+        elif z3.is_quantifier(x):
+            todo.append(x.body())
+    _consts_memo[k] = out
+    return out
+
+
 def obligation_smt2(env, ob: Obligation, extra_fuel=0, negate=True, sliced=False):
     pc = ob.pc
-    if sliced:
+    if sliced == "direct":
+        # only the hypotheses that mention a constant of the goal (a subset: sound for validity)
+        gs = _consts(ob.goal)
+        pc = [t for t in ob.pc if _consts(t) & gs]
+        ob = Obligation(ob.clause, ob.goal, pc, ob.path, ob.meta, ob.extra)
+    elif sliced:
         # hypotheses since the head of the innermost loop with invariant only (a subset: sound for validity)
         pc = ob.pc[ob.meta["pc_mark"]:]
         ob = Obligation(ob.clause, ob.goal, pc, ob.path, ob.meta, ob.extra)
